@@ -164,13 +164,25 @@ structure Parsed where
   ret : Option Err
   evs : List Ev
 
+def unmEv : Option Codec → List Ev
+  | some c => [.unm c]
+  | none => []
+
+/-- Bookkeeping: `parseResponseBody` returned an error although none was recorded before. -/
+def newErrEv : Option Err → Option Err → List Ev
+  | some e, none => [.raised e]
+  | _, _ => []
+
+/-- The `BindIn` of a response. -/
+def bindIn (s : Stack) (r : Resp) : BindIn :=
+  { http := r.http, successTarget := s.successTarget, errorTarget := s.errorTarget,
+    commonErr := s.commonErr, respErr := r.err, bodyCached := r.bodyCached, slots := r.slots }
+
 def parseResp (s : Stack) (r : Resp) : Parsed :=
-  let o := parseBody { http := r.http, successTarget := s.successTarget, errorTarget := s.errorTarget,
-                       commonErr := s.commonErr, respErr := r.err, bodyCached := r.bodyCached, slots := r.slots }
+  let o := parseBody (bindIn s r)
   { resp := { r with slots := o.slots, err := o.respErr, bodyCached := o.bodyCached },
     ret := o.err,
-    evs := (match o.codec with | some c => [.unm c] | none => []) ++
-           (match o.err, r.err with | some e, none => [.raised e] | _, _ => []) }
+    evs := unmEv o.codec ++ newErrEv o.err r.err }
 
 /-- One user response middleware in the CLIENT loop: `if e := f(c, resp); e != nil { resp.Err = e }`. -/
 def clientAct (r : Resp) : RespAct → Resp × List Ev
